@@ -19,7 +19,7 @@ RULE = (
     "0-3 trace functions (vector, scalar, integer-valued, matrix-valued, overlapping keys), adapters none / step "
     "size / +variance / +covariance, stager default / single / windowed with generated windows, storage in-memory "
     "/ temporary memmap / user directory, n_process in {1, 2, 3, None}, initial states as ChainState / dict / "
-    "position-only, progress display off / a user-supplied progress_bar_class / monitored statistics, the generic sampler with custom transitions and the four HMC classes, 7 generator types. "
+    "position-only, progress display off / a user-supplied progress_bar_class / monitored statistics, the generic sampler with custom transitions (optionally two statistics-bearing transitions declaring the same statistic keys) and the four HMC classes, 7 generator types seeded directly / obtained by jumped() / restored from a saved state. "
     "An independent per-process JSONL log is written by picklable wrapper transitions (statistics returned by "
     "each transition, post-iteration state, chain id and iteration counter carried as extra state variables). "
     "Oracle: every trace row equals the harness's own trace definition applied to the logged post-iteration "
@@ -104,33 +104,34 @@ def compare_outputs(res, cfg, b, out, recs, tag):
                     fail("fill-value-left", f"trace {key} chain {c} still holds fill values in a completed run")
                     return
         # ---- statistics
-        tkey = b.int_key
-        st_arrs = stats if b.hmc else stats.get(tkey, {})
-        types = b.sampler.transitions[tkey].statistic_types
-        for sk, (dtype, _) in types.items():
-            if sk not in st_arrs:
-                fail("statistic-missing", f"statistic {sk} missing")
-                return
-            arr = np.asarray(st_arrs[sk][c])
-            if arr.shape[0] != n_rows:
-                fail("statistic-length", f"statistic {sk} chain {c} has {arr.shape[0]} rows, expected {n_rows}")
-                return
-            if arr.dtype != np.dtype(dtype):
-                fail("statistic-dtype", f"statistic {sk} has dtype {arr.dtype}, declared {np.dtype(dtype)}")
-                return
-            for row, it in enumerate(st_its):
-                if it is None:
-                    continue
-                r = by.get(("integration", c, it - 1))
-                if r is None:
-                    fail("iteration-not-executed", f"chain {c} iteration {it} missing from the independent log")
+        for tkey, logkey in b.stat_keys:
+            st_arrs = stats if b.hmc else stats.get(tkey, {})
+            types = b.sampler.transitions[tkey].statistic_types
+            for sk, (dtype, _) in types.items():
+                if sk not in st_arrs:
+                    fail("statistic-missing", f"statistic {sk} of transition {tkey} missing")
                     return
-                val = r["stats"][sk]
-                got = arr[row]
-                same = (np.isnan(got) and isinstance(val, float) and np.isnan(val)) or got == np.dtype(dtype).type(val)
-                if not same:
-                    fail("statistic-row", f"statistic {sk} chain {c} row {row}: {got!r}, the transition returned {val!r}")
+                arr = np.asarray(st_arrs[sk][c])
+                if arr.shape[0] != n_rows:
+                    fail("statistic-length", f"statistic {sk} chain {c} has {arr.shape[0]} rows, expected {n_rows}")
                     return
+                if arr.dtype != np.dtype(dtype):
+                    fail("statistic-dtype", f"statistic {sk} has dtype {arr.dtype}, declared {np.dtype(dtype)}")
+                    return
+                for row, it in enumerate(st_its):
+                    if it is None:
+                        continue
+                    r = by.get((logkey, c, it - 1))
+                    if r is None:
+                        fail("iteration-not-executed", f"chain {c} iteration {it} missing from the independent log")
+                        return
+                    val = r["stats"][sk]
+                    got = arr[row]
+                    same = (np.isnan(got) and isinstance(val, float) and np.isnan(val)) or got == np.dtype(dtype).type(val)
+                    if not same:
+                        fail("statistic-row", f"statistic {sk} of transition {tkey} chain {c} row {row}: {got!r}, the "
+                             f"transition returned {val!r}")
+                        return
         # ---- final state
         fs = final_states[c] if c < len(final_states) else None
         if fs is None:
